@@ -9,7 +9,7 @@ CONSTANTS MaxLen
 
 Variants == {"sign", "verify-good", "verify-bad", "encrypt", "decrypt-good", "decrypt-bad", "decrypt-wrong-aad",
              "unwrap-good", "unwrap-bad", "pw-unwrap-wrong-password", "unseal-good", "unseal-bad", "id", "clone-drop", "public-key",
-             "pw-unwrap-good", "pw-unwrap-rejected-params", "verify-zero-signature", "decrypt-zero-body", "verify-good-other", "seal-key", "wrap-key"}
+             "pw-unwrap-good", "pw-unwrap-rejected-params", "verify-zero-signature", "decrypt-zero-body", "verify-good-other", "seal-key", "wrap-key", "unseal-degenerate"}
 VARIABLE h
 Init == h = << >>
 Next == Len(h) < MaxLen /\ \E v \in Variants : h' = Append(h, v)
